@@ -24,7 +24,7 @@ var ProfileC19 = &Profile{
 	ID:       "C19", Name: "determinism", MinBlocks: 10, MaxBlocks: 45, MaxTxs: 6, Spec: withPoolPricedElys(withModestUser(withBurner(specDefault))),
 	// governance is part of the history: proposals by users and by the genesis delegator (executed in the gov end-blocker),
 	// votes by accounts of any stake (the vote ante handler has a stake threshold), parameter changes between blocks
-	Weights:  withWeights(allWeights(), map[string]int{"bank.send_to_burn": 6, "gov.vote": 9, "gov.submit": 5, "commitment.stake": 7}),
+	Weights:  withWeights(allWeights(), map[string]int{"bank.send_to_burn": 6, "gov.vote": 9, "gov.submit": 5, "gov.vote_delegator": 5, "commitment.stake": 7}),
 	PreBlock: govModules("amm", "perpetual", "masterchef", "leveragelp"),
 	ExtraOps: c04ExtraOps, // swap batches with several requests per block
 	Rule:     "history with >=20 blocks, >=1 gap >= 1 day (epoch boundary), >=2 reward denoms credited and >=1 swap batch with >=2 accepted requests; replicas: fresh app, and app restarted from its DB at generated heights",
